@@ -166,6 +166,45 @@ def handler_catches(handler, name):
     return False
 
 
+def handler_catches_class(handler, name):
+    """Like handler_catches, with the hierarchy of the built-in exceptions: does the clause catch an exception of class *name*
+    (`except OSError` catches ChildProcessError, FileNotFoundError, ...)?  Unknown (project-defined) classes are caught only by
+    their own name, Exception, BaseException or a bare except."""
+    import builtins
+    t = handler.type
+    if t is None:
+        return True
+    raised = getattr(builtins, name, None)
+    elts = t.elts if isinstance(t, ast.Tuple) else [t]
+    for e in elts:
+        d = (dotted(e) or "").split(".")[-1]
+        if d in (name, "BaseException"):
+            return True
+        caught = getattr(builtins, d, None)
+        if isinstance(raised, type) and isinstance(caught, type) and issubclass(raised, BaseException) and issubclass(caught, BaseException):
+            if issubclass(raised, caught):
+                return True
+        elif d == "Exception":
+            return True
+    return False
+
+
+def raised_classes(project, func, depth=0):
+    """Names of the exception classes a project function raises itself (`raise X(...)` / `raise X`), helpers included (depth <= 2)."""
+    out = set()
+    for n in own_nodes(func.node):
+        if isinstance(n, ast.Raise) and n.exc is not None:
+            e = n.exc.func if isinstance(n.exc, ast.Call) else n.exc
+            d = dotted(e)
+            if d:
+                out.add(d.split(".")[-1])
+        if isinstance(n, ast.Call) and depth < 2:
+            t = _resolve_function(project, func, n.func)
+            if t is not None and t is not func:
+                out |= raised_classes(project, t, depth + 1)
+    return out
+
+
 def callers_of(project, func):
     """(caller Func, Call) pairs for direct calls of *func* by name or self.method."""
     out = []
